@@ -10,10 +10,114 @@
 From Coq Require Import ZArith QArith List Bool Arith Permutation Sorted.
 From Verif.Lib Require Import QRound.
 From Verif.Model Require Import Result Munkres ListGrader.
-From Verif.Proofs Require Import MunkresSpec ListGraderGroup ListGraderAssign ListGrader ListGraderFinal ListGraderTotal.
+From Verif.Proofs Require Import MunkresSpec ListGraderGroup ListGraderAssign ListGrader ListGraderFinal ListGraderTotal ListGraderHeadline.
 Import ListNotations.
 Close Scope Q_scope.
 Open Scope nat_scope.
+
+(* ---------------------------------------------------------------------------------------------------------
+   0. THE PROPERTY FOR THE WHOLE OF ListGrader.check (no grouping), one theorem per mode; the parts follow
+   --------------------------------------------------------------------------------------------------------- *)
+(* ORDERED.  What check returns is, up to the partial_credit=False rule, the list es of one of the alternative
+   answer lists al: entry p of es is exactly what subgrader p returns for answer p of al and input p (siblings
+   unchanged), and no alternative list totals more. *)
+Theorem C05_ordered_check : forall (X A : Type) (dX : X)
+    (check : nat -> A -> ginput X -> option (list (nat * ginput X)) -> option result)
+    (solve : list (list Q) -> option (list (nat * nat))) c alts xs out,
+  lg_ordered c = true -> lg_grouping c = [] -> (forall al, In al alts -> cfg_matches A c al) ->
+  check_level X A dX check solve c alts xs = Some out ->
+  exists al es,
+    In al alts /\ length es = length xs /\ length al = length xs
+    /\ (forall p a x, nth_error al p = Some a -> nth_error xs p = Some x ->
+          exists e, nth_error es p = Some e
+                    /\ check (gidx c p) a (GOne x) (Some (ordered_siblings X A c al (map GOne xs))) = Some (GOne e))
+    /\ (forall al' es', In al' alts -> perform_check X A dX check solve c al' xs = Some es' ->
+          (total es' <= total es)%Q)
+    /\ out = apply_partial (lg_partial c) es
+    /\ length out = length xs.
+Proof. exact ordered_check. Qed.
+Print Assumptions C05_ordered_check.
+
+(* UNORDERED.  What check returns is, up to the partial_credit=False rule, the list es obtained from one
+   alternative answer list al by a one-to-one assignment sigma of inputs to answers (entry i = what the subgrader
+   returns for input i and answer sigma(i)), and NO one-to-one assignment of NO alternative list has a larger
+   total credit.  (credit rs' = sum of the grades of the results rs' selected by tau.) *)
+Theorem C05_unordered_check : forall (X A : Type) (dX : X)
+    (check : nat -> A -> ginput X -> option (list (nat * ginput X)) -> option result) c alts xs out,
+  lg_ordered c = false -> lg_grouping c = [] -> 1 <= length xs ->
+  check_level X A dX check solveZ c alts xs = Some out ->
+  let n := length xs in
+  exists al es R sigma,
+    In al alts /\ length es = n /\ length al = n
+    /\ result_matrix X A check al (map GOne xs) = Some R
+    /\ Permutation sigma (seq 0 n)
+    /\ all_some (map (pick R) (combine (seq 0 n) sigma)) = Some (map GOne es)
+    /\ (forall al' R' tau rs', In al' alts -> result_matrix X A check al' (map GOne xs) = Some R' ->
+          Permutation tau (seq 0 n) ->
+          all_some (map (pick R') (combine (seq 0 n) tau)) = Some rs' -> (credit rs' <= total es)%Q)
+    /\ out = apply_partial (lg_partial c) es
+    /\ length out = n.
+Proof. exact unordered_check. Qed.
+Print Assumptions C05_unordered_check.
+
+(* ORDERED, GROUPED.  The reported list belongs to one alternative answer list al; group t was graded by subgrader
+   t against answer t of al, and the k-th entry of that result is reported at the box of the k-th input of group
+   t; no alternative list totals more. *)
+Theorem C05_ordered_check_grouped : forall (X A : Type) (dX : X)
+    (check : nat -> A -> ginput X -> option (list (nat * ginput X)) -> option result)
+    (solve : list (list Q) -> option (list (nat * nat))) c alts xs out,
+  lg_ordered c = true -> valid_grouping (lg_grouping c) -> (forall al, In al alts -> cfg_matches A c al) ->
+  check_level X A dX check solve c alts xs = Some out ->
+  let gm := group_map (lg_grouping c) in
+  let gin := groupify dX gm xs in
+  exists al es,
+    In al alts /\ length es = length xs
+    /\ (forall t grp a, nth_error gm t = Some grp -> nth_error al t = Some a ->
+          exists gi r,
+            nth_error gin t = Some gi
+            /\ entries_of gi = map (fun i => nth i xs dX) grp
+            /\ check (gidx c t) a gi (Some (ordered_siblings X A c al gin)) = Some r
+            /\ forall k i, nth_error grp k = Some i ->
+                 exists e, nth_error (entries_of r) k = Some e /\ nth_error es i = Some e)
+    /\ (forall al' es', In al' alts -> perform_check X A dX check solve c al' xs = Some es' ->
+          (total es' <= total es)%Q)
+    /\ out = apply_partial (lg_partial c) es
+    /\ length out = length xs.
+Proof. exact ordered_check_grouped. Qed.
+Print Assumptions C05_ordered_check_grouped.
+
+(* UNORDERED, GROUPED (groups of k boxes, every subgrader result with one non-negative entry per box).  The reported
+   entries are those of a one-to-one assignment of groups to the answers of one alternative list, each at the box
+   of the input it grades, and their SUM is at least the sum of the entries of ANY one-to-one assignment of ANY
+   alternative list. *)
+Theorem C05_unordered_check_grouped : forall (X A : Type) (dX : X)
+    (check : nat -> A -> ginput X -> option (list (nat * ginput X)) -> option result) c alts xs out k,
+  lg_ordered c = false -> valid_grouping (lg_grouping c) ->
+  (forall al, In al alts -> length al = list_max (lg_grouping c)) ->
+  1 <= k -> (forall grp, In grp (group_map (lg_grouping c)) -> length grp = k) ->
+  (forall al R, In al alts ->
+     result_matrix X A check al (groupify dX (group_map (lg_grouping c)) xs) = Some R ->
+     forall p r, pick R p = Some r -> well_shaped k r) ->
+  check_level X A dX check solveZ c alts xs = Some out ->
+  let gm := group_map (lg_grouping c) in
+  let gin := groupify dX gm xs in
+  let n := length gm in
+  exists al es R sigma rs,
+    In al alts /\ length es = length xs
+    /\ result_matrix X A check al gin = Some R
+    /\ Permutation sigma (seq 0 n)
+    /\ all_some (map (pick R) (combine (seq 0 n) sigma)) = Some rs
+    /\ ungroupify gm rs = Some es
+    /\ (forall t grp r j i, nth_error gm t = Some grp -> nth_error rs t = Some r -> nth_error grp j = Some i ->
+          exists e, nth_error (entries_of r) j = Some e /\ nth_error es i = Some e)
+    /\ (forall al' R' tau rs', In al' alts -> result_matrix X A check al' gin = Some R' ->
+          Permutation tau (seq 0 n) ->
+          all_some (map (pick R') (combine (seq 0 n) tau)) = Some rs' ->
+          (total (concat (map entries_of rs')) <= total es)%Q)
+    /\ out = apply_partial (lg_partial c) es
+    /\ length out = length xs.
+Proof. exact unordered_check_grouped. Qed.
+Print Assumptions C05_unordered_check_grouped.
 
 (* ---------------------------------------------------------------------------------------------------------
    1. ordered: the i-th result is exactly what the i-th subgrader returns for the i-th answer and the i-th
